@@ -1312,3 +1312,591 @@ impl PartialEq for BlobHash {""")]},
         let info = WalAppendInfo { version, op_hash };
         return Ok(info);""")]},
 ]
+
+BENIGN += [
+    {"name": "b19-merge-put-and-remove-apply",
+     "edits": [("src/index/manager.rs",
+                """        let logical_op = WalOp::Put { key: key.clone(), hash, size };
+        let mut intents = self.pending_intents.lock();
+
+        let (mut unreferenced_from_op, rolled_over) = {
+            let mut state = self.state.write();
+            let mut wal = self.wal.lock();
+            let (hashes, _append_info, rolled) =
+                Self::apply_wal_op_unsafe(&mut state, &mut wal, &logical_op)?;
+            (hashes, rolled)
+        };
+
+        // Only drop the by-key entry if it is ours; a concurrent commit on the same key may
+        // have replaced it.
+        if intents.get(&key) == Some(&hash) {
+            intents.remove(&key);
+        }
+
+        // Filter out any unreferenced hashes that are still referenced by other intents
+        unreferenced_from_op.retain(|hash| !self.has_live_intent(hash));
+
+        // Delete blobs BEFORE any checkpoint
+        if !unreferenced_from_op.is_empty() {
+            delete_fn(&unreferenced_from_op).map_err(|e| IndexError::BlobDeletion { source: e })?;
+        }
+
+        drop(intents);
+
+        if rolled_over {
+            let mut state = self.state.write();
+            let mut wal = self.wal.lock();
+            self.checkpoint_inner(CheckpointReason::SegmentRollover, &mut wal, &mut state)?;
+        }
+
+        Ok(())
+    }
+""",
+                """        let logical_op = WalOp::Put { key: key.clone(), hash, size };
+        self.apply_op(logical_op, Some((key, hash)), delete_fn)
+    }
+
+    fn apply_op(
+        &self,
+        logical_op: WalOp<K>,
+        own_intent: Option<(K, BlobHash)>,
+        delete_fn: &crate::types::DeleteBlobCallFn,
+    ) -> Result<(), IndexError> {
+        let mut intents = self.pending_intents.lock();
+
+        let (mut unreferenced_from_op, rolled_over) = {
+            let mut state = self.state.write();
+            let mut wal = self.wal.lock();
+            let (hashes, _append_info, rolled) =
+                Self::apply_wal_op_unsafe(&mut state, &mut wal, &logical_op)?;
+            (hashes, rolled)
+        };
+
+        // Only drop the by-key entry if it is ours; a concurrent commit on the same key may
+        // have replaced it.
+        if let Some((key, hash)) = own_intent
+            && intents.get(&key) == Some(&hash)
+        {
+            intents.remove(&key);
+        }
+
+        // Filter out any unreferenced hashes that are still referenced by other intents
+        unreferenced_from_op.retain(|hash| !self.has_live_intent(hash));
+
+        // Delete blobs BEFORE any checkpoint
+        if !unreferenced_from_op.is_empty() {
+            delete_fn(&unreferenced_from_op).map_err(|e| IndexError::BlobDeletion { source: e })?;
+        }
+
+        drop(intents);
+
+        if rolled_over {
+            let mut state = self.state.write();
+            let mut wal = self.wal.lock();
+            self.checkpoint_inner(CheckpointReason::SegmentRollover, &mut wal, &mut state)?;
+        }
+
+        Ok(())
+    }
+"""),
+               ("src/index/manager.rs",
+                """        let logical_op = WalOp::Remove { keys };
+        let intents = self.pending_intents.lock();
+
+        let (mut unreferenced_from_op, rolled_over) = {
+            let mut state = self.state.write();
+            let mut wal = self.wal.lock();
+            let (hashes, _append_info, rolled) =
+                Self::apply_wal_op_unsafe(&mut state, &mut wal, &logical_op)?;
+            (hashes, rolled)
+        };
+
+        // Remove any unreferenced hashes that are still referenced by intents
+        unreferenced_from_op.retain(|hash| !self.has_live_intent(hash));
+
+        // Delete blobs BEFORE any checkpoint
+        if !unreferenced_from_op.is_empty() {
+            delete_fn(&unreferenced_from_op).map_err(|e| IndexError::BlobDeletion { source: e })?;
+        }
+
+        drop(intents);
+
+        if rolled_over {
+            let mut state = self.state.write();
+            let mut wal = self.wal.lock();
+            self.checkpoint_inner(CheckpointReason::SegmentRollover, &mut wal, &mut state)?;
+        }
+
+        Ok(())
+    }
+""",
+                """        let logical_op = WalOp::Remove { keys };
+        self.apply_op(logical_op, None, delete_fn)
+    }
+""")]},
+    {"name": "b20-inline-append-and-apply",
+     "edits": [("src/index/manager.rs",
+                """        let (mut unreferenced_from_op, rolled_over) = {
+            let mut state = self.state.write();
+            let mut wal = self.wal.lock();
+            let (hashes, _append_info, rolled) =
+                Self::apply_wal_op_unsafe(&mut state, &mut wal, &logical_op)?;
+            (hashes, rolled)
+        };
+
+        // Remove any unreferenced hashes that are still referenced by intents""",
+                """        let (mut unreferenced_from_op, rolled_over) = {
+            let mut state = self.state.write();
+            let mut wal = self.wal.lock();
+            let pre_append_segment_id = wal.get_segment_id_for_previous_op();
+            let serialized = crate::serialization::serialize_wal_op_raw(&logical_op.to_raw())
+                .map_err(IndexError::SerializeWalOp)?;
+            let append_info = wal.append_op(&serialized)?;
+            let hashes = state.apply_logical_op(&logical_op).expect("Index is corrupted");
+            let post_append_segment_id = wal.segment_id_for_op_version(append_info.version.get());
+            (hashes, pre_append_segment_id != post_append_segment_id)
+        };
+
+        // Remove any unreferenced hashes that are still referenced by intents""")]},
+    {"name": "b22-extract-make-durable-helper",
+     "edits": [("src/transaction.rs",
+                """        let file_to_sync = self.writer.into_inner().map_err(|e| crate::LibError::Io {
+            operation: LibIoOperation::CommitFlushWriter,
+            path: None,
+            source: e.into_error(),
+        })?;
+        self.cas_inner.fdatasync(file_to_sync)?;
+
+        let blob_hash = BlobHash::from_bytes(*self.hasher.finalize().as_bytes());
+""",
+                """        let Transaction { temp_file, cas_inner, writer, hasher, size, key } = self;
+        Self::make_durable(cas_inner, writer)?;
+        let self_ = Staged { temp_file, cas_inner, hasher, size, key };
+        let blob_hash = BlobHash::from_bytes(*self_.hasher.finalize().as_bytes());
+        return Self::publish_and_apply(self_, blob_hash);
+    }
+
+    fn make_durable(cas_inner: &CasInner<K>, writer: BufWriter<File>) -> Result<(), crate::LibError> {
+        use crate::LibIoOperation;
+        let file_to_sync = writer.into_inner().map_err(|e| crate::LibError::Io {
+            operation: LibIoOperation::CommitFlushWriter,
+            path: None,
+            source: e.into_error(),
+        })?;
+        cas_inner.fdatasync(file_to_sync)
+    }
+
+    fn publish_and_apply(self_: Staged<'a, K>, blob_hash: crate::types::BlobHash) -> Result<(), crate::LibError> {
+        use crate::types::BlobHash;
+        let self_ = self_;
+"""),
+               ("src/transaction.rs",
+                """pub struct Transaction<'a, K> {""",
+                """struct Staged<'a, K> {
+    temp_file: NamedTempFile,
+    cas_inner: &'a CasInner<K>,
+    hasher: blake3::Hasher,
+    size: u64,
+    key: K,
+}
+
+pub struct Transaction<'a, K> {""")],
+     "sed": [("src/transaction.rs", "            .register_intent(self.key.clone(), IntentMeta { blob_hash, blob_size: self.size })",
+              "            .register_intent(self_.key.clone(), IntentMeta { blob_hash, blob_size: self_.size })"),
+             ("src/transaction.rs", "        let intent_guard = self\n            .cas_inner", "        let intent_guard = self_\n            .cas_inner"),
+             ("src/transaction.rs", 'tracing::debug!(%blob_hash, key = ?self.key, "Committing transaction");', 'tracing::debug!(%blob_hash, key = ?self_.key, "Committing transaction");'),
+             ("src/transaction.rs", "        let _cas_path = self\n            .cas_inner", "        let _cas_path = self_\n            .cas_inner"),
+             ("src/transaction.rs", ".commit_blob(self.temp_file.path(), &blob_hash)", ".commit_blob(self_.temp_file.path(), &blob_hash)"),
+             ("src/transaction.rs", "            self.cas_inner.cas_manager.delete_blobs(hashes).map(|_| ())", "            self_.cas_inner.cas_manager.delete_blobs(hashes).map(|_| ())")]},
+    {"name": "b32-extract-make-durable-only",
+     "edits": [("src/transaction.rs",
+                """        let file_to_sync = self.writer.into_inner().map_err(|e| crate::LibError::Io {
+            operation: LibIoOperation::CommitFlushWriter,
+            path: None,
+            source: e.into_error(),
+        })?;
+        self.cas_inner.fdatasync(file_to_sync)?;
+""",
+                """        Self::make_durable(self.cas_inner, self.writer)?;
+"""),
+               ("src/transaction.rs",
+                """    fn commit(self) -> Result<(), crate::LibError> {""",
+                """    fn make_durable(cas_inner: &CasInner<K>, writer: BufWriter<File>) -> Result<(), crate::LibError> {
+        use crate::LibIoOperation;
+        let file_to_sync = writer.into_inner().map_err(|e| crate::LibError::Io {
+            operation: LibIoOperation::CommitFlushWriter,
+            path: None,
+            source: e.into_error(),
+        })?;
+        cas_inner.fdatasync(file_to_sync)
+    }
+
+    fn commit(self) -> Result<(), crate::LibError> {""")]},
+    {"name": "b33-extract-publish-and-apply-helper",
+     "edits": [("src/transaction.rs",
+                """        // Register intent - returns a guard that will cleanup on drop if not committed
+""",
+                """        Self::publish_and_apply(self.cas_inner, &self.temp_file, &self.key, self.size, blob_hash)
+    }
+
+    fn publish_and_apply(
+        cas_inner: &CasInner<K>,
+        temp_file: &NamedTempFile,
+        key: &K,
+        size: u64,
+        blob_hash: crate::types::BlobHash,
+    ) -> Result<(), crate::LibError> {
+        use crate::types::BlobHash;
+        // Register intent - returns a guard that will cleanup on drop if not committed
+""")],
+     "sed": [("src/transaction.rs", "        let intent_guard = self\n            .cas_inner", "        let intent_guard = cas_inner"),
+             ("src/transaction.rs", "            .register_intent(self.key.clone(), IntentMeta { blob_hash, blob_size: self.size })",
+              "            .register_intent(key.clone(), IntentMeta { blob_hash, blob_size: size })"),
+             ("src/transaction.rs", 'tracing::debug!(%blob_hash, key = ?self.key, "Committing transaction");', 'tracing::debug!(%blob_hash, key = ?key, "Committing transaction");'),
+             ("src/transaction.rs", "        let _cas_path = self\n            .cas_inner", "        let _cas_path = cas_inner"),
+             ("src/transaction.rs", ".commit_blob(self.temp_file.path(), &blob_hash)", ".commit_blob(temp_file.path(), &blob_hash)"),
+             ("src/transaction.rs", "            self.cas_inner.cas_manager.delete_blobs(hashes).map(|_| ())", "            cas_inner.cas_manager.delete_blobs(hashes).map(|_| ())")]},
+    {"name": "b23-extract-ensure-writer",
+     "edits": [("src/wal/manager.rs",
+                """        // check if we need to roll over to a new segment file.
+        let must_rollover =
+            self.active_writer.as_ref().is_none_or(|w| w.segment_id() != target_segment_id);
+        if must_rollover {
+            if let Some(old_writer) = self.active_writer.take() {
+                // when rolling over, the old segment is permanently finished. seal it.
+                old_writer.seal()?;
+            }
+            self.active_writer = Some(self.storage.open_writer(target_segment_id)?);
+        }
+
+        let writer = self.active_writer.as_mut().unwrap();
+        let op_hash = calculate_blob_hash(op_data);
+        writer.write_entry(version, op_hash, op_data)?;
+
+        Ok(WalAppendInfo { version, op_hash })
+    }
+""",
+                """        let op_hash = calculate_blob_hash(op_data);
+        let writer = self.writer_for(target_segment_id)?;
+        writer.write_entry(version, op_hash, op_data)?;
+
+        Ok(WalAppendInfo { version, op_hash })
+    }
+
+    /// Returns the writer of `target_segment_id`, sealing the previous segment and opening the new one
+    /// when the target differs from the active writer's segment.
+    fn writer_for(&mut self, target_segment_id: u64) -> Result<&mut SegmentWriter, WalError> {
+        // check if we need to roll over to a new segment file.
+        let must_rollover =
+            self.active_writer.as_ref().is_none_or(|w| w.segment_id() != target_segment_id);
+        if must_rollover {
+            if let Some(old_writer) = self.active_writer.take() {
+                // when rolling over, the old segment is permanently finished. seal it.
+                old_writer.seal()?;
+            }
+            self.active_writer = Some(self.storage.open_writer(target_segment_id)?);
+        }
+        Ok(self.active_writer.as_mut().unwrap())
+    }
+""")]},
+    {"name": "b24-explicit-flush-before-into-inner",
+     "edits": [("src/transaction.rs",
+                """        let file_to_sync = self.writer.into_inner().map_err(|e| crate::LibError::Io {""",
+                """        let mut writer = self.writer;
+        std::io::Write::flush(&mut writer).map_err(|e| crate::LibError::Io {
+            operation: LibIoOperation::CommitFlushWriter,
+            path: None,
+            source: e,
+        })?;
+        let file_to_sync = writer.into_inner().map_err(|e| crate::LibError::Io {""")]},
+    {"name": "b27-orphan-liveness-helper",
+     "edits": [("src/orphan.rs",
+                """impl<K> OrphanStats<K> {
+    /// Delete orphaned blobs""",
+                """impl<K> OrphanStats<K> {
+    /// Whether `hash` is referenced by the index or by an in-flight commit. Call with `pending_intents` held.
+    fn is_live(&self, hash: &BlobHash) -> bool {
+        let state = self.cas_inner.index.read_state();
+        let still_referenced = state.contains_blob_hash(hash);
+        drop(state);
+        still_referenced || self.cas_inner.index.has_live_intent(hash)
+    }
+
+    /// Delete orphaned blobs"""),
+               ("src/orphan.rs",
+                """        let blob_path = self.cas_inner.paths.cas_file_path(hash);
+        let _intents = self.cas_inner.index.pending_intents.lock();
+        let state = self.cas_inner.index.read_state();
+        let still_referenced = state.contains_blob_hash(hash);
+        let has_intent = self.cas_inner.index.has_live_intent(hash);
+        drop(state);
+
+        if still_referenced || has_intent {
+            return Ok(false);
+        }
+""",
+                """        let blob_path = self.cas_inner.paths.cas_file_path(hash);
+        let _intents = self.cas_inner.index.pending_intents.lock();
+        if self.is_live(hash) {
+            return Ok(false);
+        }
+""")]},
+    {"name": "b29-open-without-recover-wrapper",
+     "edits": [("src/cas.rs",
+                """    pub fn open(db_root: impl AsRef<Path>, config: Config) -> Result<Self, LibError> {
+        // Use open_with_recover internally and drop the stats
+        let fail_on_integrity_errors = config.fail_on_integrity_errors;
+        let (cas, orphan_stats) = Self::open_with_recover(db_root, config)?;
+""",
+                """    pub fn open(db_root: impl AsRef<Path>, config: Config) -> Result<Self, LibError> {
+        let fail_on_integrity_errors = config.fail_on_integrity_errors;
+        let (cas, orphan_stats) = Self::open_impl(db_root.as_ref(), config)?;
+"""),
+               ("src/cas.rs",
+                """    ) -> Result<(Self, Option<OrphanStats<K>>), LibError> {
+        let inner = CasInner::new(db_root.as_ref().to_path_buf(), config.clone())?;""",
+                """    ) -> Result<(Self, Option<OrphanStats<K>>), LibError> {
+        Self::open_impl(db_root.as_ref(), config)
+    }
+
+    fn open_impl(db_root: &Path, config: Config) -> Result<(Self, Option<OrphanStats<K>>), LibError> {
+        let inner = CasInner::new(db_root.to_path_buf(), config.clone())?;""")]},
+    {"name": "b30-lock-before-mkdirs",
+     "edits": [("src/cas.rs",
+                """        std::fs::create_dir_all(paths.staging_root_path()).map_err(|e| LibError::Io {
+            operation: LibIoOperation::CreateStagingDir,
+            path: Some(paths.staging_root_path().to_path_buf()),
+            source: e,
+        })?;
+        std::fs::create_dir_all(paths.cas_root_path()).map_err(|e| LibError::Io {
+            operation: LibIoOperation::CreateCasDir,
+            path: Some(paths.cas_root_path().to_path_buf()),
+            source: e,
+        })?;
+
+""",
+                """        std::fs::create_dir_all(paths.db_root_path()).map_err(|e| LibError::Io {
+            operation: LibIoOperation::CreateStagingDir,
+            path: Some(paths.db_root_path().to_path_buf()),
+            source: e,
+        })?;
+
+"""),
+               ("src/cas.rs",
+                """        lockfile.try_lock().map_err(|_e| LibError::AlreadyOpened)?;
+""",
+                """        lockfile.try_lock().map_err(|_e| LibError::AlreadyOpened)?;
+
+        std::fs::create_dir_all(paths.staging_root_path()).map_err(|e| LibError::Io {
+            operation: LibIoOperation::CreateStagingDir,
+            path: Some(paths.staging_root_path().to_path_buf()),
+            source: e,
+        })?;
+        std::fs::create_dir_all(paths.cas_root_path()).map_err(|e| LibError::Io {
+            operation: LibIoOperation::CreateCasDir,
+            path: Some(paths.cas_root_path().to_path_buf()),
+            source: e,
+        })?;
+""")]},
+    {"name": "b31-logging-drop-impl",
+     "edits": [("src/cas.rs",
+                """impl<K> Debug for CasInner<K>""",
+                """impl<K> Drop for CasInner<K> {
+    fn drop(&mut self) {
+        tracing::debug!(root = %self.paths.db_root_path().display(), "closing database handle");
+    }
+}
+
+impl<K> Debug for CasInner<K>""")]},
+]
+
+
+BENIGN += [
+    {"name": "b34-take-bytes-explicit-length-check",
+     "edits": [("src/serialization.rs",
+                """    let (head, rest) = bytes.split_at_checked(len).ok_or(SerializationError::InsufficientData {
+        entity,
+        expected: len,
+        found: bytes.len(),
+        parsing_context,
+    })?;
+    *bytes = rest;
+    Ok(head)""",
+                """    if bytes.len() < len {
+        return Err(SerializationError::InsufficientData {
+            entity,
+            expected: len,
+            found: bytes.len(),
+            parsing_context,
+        });
+    }
+    let (head, rest) = bytes.split_at(len);
+    *bytes = rest;
+    Ok(head)""")]},
+    {"name": "b35-wal-header-const-range-slices",
+     "edits": [("src/wal/storage.rs",
+                """        let (ver_s, rest) = header
+            .split_at_checked(WAL_ENTRY_VERSION_SIZE)
+            .ok_or_else(|| hdr_eof("missing version bytes in WAL header"))?;
+
+        let (hash_s, rest) = rest
+            .split_at_checked(WAL_ENTRY_OP_HASH_SIZE)
+            .ok_or_else(|| hdr_eof("missing hash bytes in WAL header"))?;
+
+        let (len_s, extra) = rest
+            .split_at_checked(WAL_ENTRY_OP_LEN_SIZE)
+            .ok_or_else(|| hdr_eof("missing op length bytes in WAL header"))?;
+
+        if !extra.is_empty() {
+            return Err(hdr_bad("extra bytes in WAL header"));
+        }
+""",
+                """        let _ = &hdr_eof;
+        let ver_s = &header[..WAL_ENTRY_VERSION_SIZE];
+        let hash_s = &header[WAL_ENTRY_VERSION_SIZE..WAL_ENTRY_VERSION_SIZE + WAL_ENTRY_OP_HASH_SIZE];
+        let len_s = &header[WAL_ENTRY_VERSION_SIZE + WAL_ENTRY_OP_HASH_SIZE..];
+""")]},
+    {"name": "b36-replay-loop-while-let",
+     "edits": [("src/wal/replay.rs",
+                """            for entry in reader {
+                let entry = entry?;
+                highest = match highest {
+                    Some(prev) => Some(prev.max(entry.version)),
+                    None => Some(entry.version),
+                };
+
+                // Skip already-checkpointed ops
+                if checkpoint.is_some_and(|c| entry.version <= c) {
+                    continue;
+                }
+""",
+                """            let mut reader = reader;
+            while let Some(entry) = reader.next() {
+                let entry = entry?;
+                if highest.is_none_or(|prev| entry.version > prev) {
+                    highest = Some(entry.version);
+                }
+
+                // Skip already-checkpointed ops
+                if let Some(c) = checkpoint {
+                    if entry.version <= c {
+                        continue;
+                    }
+                }
+""")]},
+    {"name": "b37-settings-validation-helpers",
+     "edits": [("src/settings.rs",
+                """                if settings.version != CURRENT_DB_VERSION {
+                    return Err(SettingsError::UnsupportedVersion {
+                        found: settings.version,
+                        expected: CURRENT_DB_VERSION,
+                    });
+                }
+
+                Ok(Some(settings))""",
+                """                settings.check_version()?;
+                Ok(Some(settings))"""),
+               ("src/settings.rs",
+                """impl SettingsPersister {
+    pub fn new(settings_path: PathBuf) -> Self {""",
+                """impl DbSettings {
+    fn check_version(&self) -> Result<(), SettingsError> {
+        if self.version == CURRENT_DB_VERSION {
+            Ok(())
+        } else {
+            Err(SettingsError::UnsupportedVersion { found: self.version, expected: CURRENT_DB_VERSION })
+        }
+    }
+}
+
+impl SettingsPersister {
+    pub fn new(settings_path: PathBuf) -> Self {"""),
+               ("src/cas.rs",
+                """                // Validate immutable settings
+                if existing_settings.num_ops_per_wal != config.num_ops_per_wal {
+                    return Err(LibError::Settings(SettingsError::ValidationFailed(format!(
+                        "Cannot change num_ops_per_wal from {} to {} after database creation",
+                        existing_settings.num_ops_per_wal, config.num_ops_per_wal
+                    ))));
+                }
+                existing_settings.dir_tree_is_pre_created""",
+                """                // Validate immutable settings
+                check_immutable_settings(&existing_settings, &config)?;
+                existing_settings.dir_tree_is_pre_created"""),
+               ("src/cas.rs",
+                """pub fn calculate_blob_hash(blob_data: &[u8]) -> BlobHash {""",
+                """fn check_immutable_settings(existing: &DbSettings, config: &Config) -> Result<(), LibError> {
+    if existing.num_ops_per_wal == config.num_ops_per_wal {
+        return Ok(());
+    }
+    Err(LibError::Settings(SettingsError::ValidationFailed(format!(
+        "Cannot change num_ops_per_wal from {} to {} after database creation",
+        existing.num_ops_per_wal, config.num_ops_per_wal
+    ))))
+}
+
+pub fn calculate_blob_hash(blob_data: &[u8]) -> BlobHash {""")]},
+    {"name": "b38-extract-dir-lock-helper",
+     "edits": [("src/cas.rs",
+                """        let lockfile = std::fs::OpenOptions::new()
+            .create(true)
+            .truncate(true)
+            .write(true)
+            .open(paths.lockfile_path())
+            .map_err(|e| LibError::Io {
+                operation: LibIoOperation::CreateLockFile,
+                path: Some(paths.lockfile_path().to_path_buf()),
+                source: e,
+            })?;
+
+        lockfile.try_lock().map_err(|_e| LibError::AlreadyOpened)?;
+""",
+                """        let lockfile = acquire_dir_lock(&paths)?;
+"""),
+               ("src/cas.rs",
+                """pub fn calculate_blob_hash(blob_data: &[u8]) -> BlobHash {""",
+                """fn acquire_dir_lock(paths: &paths::DbPaths) -> Result<File, LibError> {
+    let lockfile = std::fs::OpenOptions::new()
+        .create(true)
+        .truncate(true)
+        .write(true)
+        .open(paths.lockfile_path())
+        .map_err(|e| LibError::Io {
+            operation: LibIoOperation::CreateLockFile,
+            path: Some(paths.lockfile_path().to_path_buf()),
+            source: e,
+        })?;
+    match lockfile.try_lock() {
+        Ok(()) => Ok(lockfile),
+        Err(_e) => Err(LibError::AlreadyOpened),
+    }
+}
+
+pub fn calculate_blob_hash(blob_data: &[u8]) -> BlobHash {""")]},
+    {"name": "b39-stats-update-helpers",
+     "edits": [("src/index/state.rs",
+                """    pub(crate) fn increment_ref(&mut self, hash: &BlobHash) -> bool {""",
+                """    fn blob_added(&mut self, size: u64) {
+        self.stats.cas.unique_blobs += 1;
+        self.stats.cas.total_bytes += size;
+    }
+
+    fn blob_dropped(&mut self, size: u64) {
+        self.stats.cas.unique_blobs -= 1;
+        self.stats.cas.total_bytes -= size;
+    }
+
+    pub(crate) fn increment_ref(&mut self, hash: &BlobHash) -> bool {""")],
+     "sed": [("src/index/state.rs",
+              """                            self.stats.cas.unique_blobs += 1;
+                            self.stats.cas.total_bytes += *size;""",
+              """                            self.blob_added(*size);"""),
+             ("src/index/state.rs",
+              """                            self.stats.cas.unique_blobs -= 1;
+                            self.stats.cas.total_bytes -= prev.blob_size;""",
+              """                            self.blob_dropped(prev.blob_size);"""),
+             ("src/index/state.rs",
+              """                        self.stats.cas.unique_blobs -= 1;
+                        self.stats.cas.total_bytes -= item.blob_size;""",
+              """                        self.blob_dropped(item.blob_size);""")]},
+]
